@@ -604,7 +604,9 @@ def run_script(script: dict) -> dict:
             real = np.zeros((cfg.get("Nreal", cfg["N"]), MODEL_D[0]))
             sched = build_scheduler(cfg, samplers, script.get("agent"))
             kw = {"samplers": samplers} if sched is None else {"scheduler": sched}
-            cal = Calibrator(loss_function=loss, real_data=real, model=current_model(), parameters_bounds=SPACE_BOUNDS,
+            # (scripted samplers encode their identity in the point and ignore the grid: the declared space may be tiny)
+            bounds = [[0, 0, 0, 0], [1, 1, 1, 1]] if cfg.get("tinyspace") else SPACE_BOUNDS
+            cal = Calibrator(loss_function=loss, real_data=real, model=current_model(), parameters_bounds=bounds,
                              parameters_precision=SPACE_PREC, ensemble_size=cfg["E"],
                              sim_length=None if cfg.get("Nreal", cfg["N"]) == cfg["N"] else cfg["N"],
                              convergence_precision=cfg["prec"] if cfg["convon"] else None, verbose=cfg["verbose"],
